@@ -186,6 +186,19 @@ type Atom struct {
 	C    *ssa.Const
 	Op   token.Token
 	Y    ssa.Value
+	Env  env // non-nil for atoms that live inside a helper: the helper's parameters bound to the call's arguments
+}
+
+// val returns the tested value in the caller's terms: a helper parameter is replaced by the argument it was called with.
+func (a Atom) val() ssa.Value { return resolveEnv(a.X, a.Env) }
+
+// fieldLoadA is fieldLoad on the atom's value, with the base translated through the atom's environment.
+func fieldLoadA(a Atom) (base ssa.Value, name string, ok bool) {
+	b, n, ok := fieldLoad(resolve(a.X))
+	if !ok {
+		return nil, "", false
+	}
+	return resolveEnv(b, a.Env), n, true
 }
 
 func isNilConst(v ssa.Value) bool {
@@ -238,13 +251,21 @@ func decompose(v ssa.Value) (a Atom, positive bool) {
 // branchFacts enumerates, for every If of f, its two out-edges together with the atom
 // and whether the atom holds along that edge.
 type branchFact struct {
-	E     edge
-	A     Atom
-	Holds bool
-	If    *ssa.If
+	E       edge
+	A       Atom
+	Holds   bool
+	If      *ssa.If
+	Derived bool         // implied by the outcome of a helper call tested at this branch (A lives in the helper, A.Env set)
+	Via     *ssa.Function // the helper whose outcome implies a derived fact
+	Alts    [][]factAtom // when the outcome is reachable through several alternative condition sets (a || b): the alternatives
 }
 
-func branchFacts(f *ssa.Function) []branchFact {
+type factAtom struct {
+	A     Atom
+	Holds bool
+}
+
+func directFacts(f *ssa.Function) []branchFact {
 	var out []branchFact
 	for _, b := range f.Blocks {
 		if len(b.Instrs) == 0 {
@@ -255,7 +276,7 @@ func branchFacts(f *ssa.Function) []branchFact {
 			continue
 		}
 		a, pos := decompose(iff.Cond)
-		out = append(out, branchFact{edge{b, 0}, a, pos, iff}, branchFact{edge{b, 1}, a, !pos, iff})
+		out = append(out, branchFact{E: edge{b, 0}, A: a, Holds: pos, If: iff}, branchFact{E: edge{b, 1}, A: a, Holds: !pos, If: iff})
 	}
 	return out
 }
@@ -266,6 +287,25 @@ func edgesWhere(f *ssa.Function, pred func(a Atom, holds bool) bool) map[edge]bo
 	for _, bf := range branchFacts(f) {
 		if pred(bf.A, bf.Holds) {
 			out[bf.E] = true
+			continue
+		}
+		// disjunctive outcome of a helper: the edge establishes the fact if every alternative does
+		if len(bf.Alts) > 0 {
+			all := true
+			for _, alt := range bf.Alts {
+				any := false
+				for _, fa := range alt {
+					if pred(fa.A, fa.Holds) {
+						any = true
+					}
+				}
+				if !any {
+					all = false
+				}
+			}
+			if all {
+				out[bf.E] = true
+			}
 		}
 	}
 	return out
@@ -491,11 +531,22 @@ var pureCalls = map[string]bool{
 // Impure calls, allocations and phis carry their identity, so two different draws differ.
 func (p *Prog) canon(v ssa.Value) string { return p.canonD(v, 0) }
 
+// canonE is canon with helper parameters substituted by the arguments they are bound to in e.
+func (p *Prog) canonE(v ssa.Value, e env) string {
+	if len(e) == 0 {
+		return p.canonD(v, 0)
+	}
+	old := p.canonEnv
+	p.canonEnv = e
+	defer func() { p.canonEnv = old }()
+	return p.canonD(v, 0)
+}
+
 func (p *Prog) canonD(v ssa.Value, d int) string {
 	if d > 12 {
 		return "…"
 	}
-	v = resolve(v)
+	v = resolveEnv(v, p.canonEnv)
 	switch x := v.(type) {
 	case nil:
 		return "<nil>"
